@@ -17,6 +17,8 @@ def presentations(w, rng):
     b = copy.copy(w); b.presented = w.presented + [rng.choice(w.presented)] if w.presented else []; b.scans = w.scans + [w.scans[0]]; out.append(("duplicated", b))
     c = copy.copy(w); c.scans = [()] if rng.random() < 0.5 else w.scans + [()]; out.append(("nested", c))
     d = copy.copy(w); d.scans = w.scans + [w.export]; d.threads = rng.choice([0, 1, 2, 3, 8]); out.append(("export-included", d))
+    # the same directories under other spellings (trailing separator, '.' component, doubled separator), one of them twice
+    e = copy.copy(w); e.notes = dict(w.notes, spell=rng.choice(["slash", "dot", "dslash"])); e.scans = w.scans + [w.scans[0]]; out.append(("respelled", e))
     return out
 
 
